@@ -339,12 +339,34 @@ func (w *world) snapshot(r string) string {
 		w.curServed[s.GetID()] = mkRec(s)
 	}
 	var sd []string
-	// the real load path of a new leader
-	if err := w.st.LoadStores(func(s *core.StoreInfo) {
-		sd = append(sd, "("+coqfmt.ZU(s.GetID())+", "+viewCoq(s.GetMeta(), s.GetLeaderWeight(), s.GetRegionWeight(), 0, w)+")")
-		w.curStored[s.GetID()] = mkRec(s)
-	}); err != nil {
+	// what storage holds, read key by key WITHOUT Storage.LoadStores (the paging of the code under test must not decide what the
+	// harness sees): every record under raft/s/ and the two weight keys of its id (default 1, as LoadStores documents)
+	_, vals, err := w.kb.Inner.LoadRange("raft/s/", "raft/s/\xff", 0)
+	if err != nil {
 		panic(err)
+	}
+	weight := func(id uint64, which string) float64 {
+		v, err := w.kb.Inner.Load(fmt.Sprintf("schedule/store_weight/%020d/%s", id, which))
+		if err != nil {
+			panic(err)
+		}
+		if v == "" {
+			return 1
+		}
+		f, err := strconv.ParseFloat(v, 64)
+		if err != nil {
+			panic(err)
+		}
+		return f
+	}
+	for _, v := range vals {
+		m := &metapb.Store{}
+		if err := m.Unmarshal([]byte(v)); err != nil {
+			panic(err)
+		}
+		lw, rw := weight(m.GetId(), "leader"), weight(m.GetId(), "region")
+		sd = append(sd, "("+coqfmt.ZU(m.GetId())+", "+viewCoq(m, lw, rw, 0, w)+")")
+		w.curStored[m.GetId()] = mkRec(core.NewStoreInfo(m, core.SetLeaderWeight(lw), core.SetRegionWeight(rw)))
 	}
 	return "(Obs " + r + "\n     " + coqfmt.List(sv) + "\n     " + coqfmt.List(sd) + ")"
 }
